@@ -425,7 +425,7 @@ pub fn plan_for(prop: &str, tier: &str, seed: u64) -> Plan {
         "C03" => vec!["C01", "C13"],
         "C08" => vec!["C10", "C13", "C18", "C11", "C14"],
         "C09" => vec!["C01", "C10", "C18"],
-        "C10" => vec!["C01", "C11", "C09"],
+        "C10" => vec!["C01", "C11", "C09", "C14"],
         "C11" => vec!["C01", "C10"],
         "C13" => vec!["C03", "C08", "C14"],
         "C18" => vec!["C08", "C10", "C09", "C14"],
